@@ -30,6 +30,7 @@ type checkCtx struct {
 	t0        time.Time
 	encCache  map[string]*EncInfo
 	didTables bool
+	inClosure bool
 }
 
 var unsignedTs = []string{"uint8", "uint16", "uint32", "uint64"}
@@ -168,7 +169,7 @@ func (c *checkCtx) instantiationsFor(fn *ssa.Function, short string, used map[st
 			add(ts)
 		}
 	}
-	if c.tier == "thorough" || len(out) == 0 {
+	if c.tier == "thorough" && !c.inClosure || len(out) == 0 {
 		first := unsignedTs
 		if n == 1 && !strings.Contains(short, "String") && short != "checkPrefix" && !strings.Contains(short, "List") {
 			first = basicKs // scalar read / write
@@ -641,7 +642,11 @@ func (c *checkCtx) plan() bool {
 		// sites (all behaviours, as implications, in the safety runs), so a plan that verified only the behaviours its
 		// own statement names would rest on unverified ones. Obligations already generated above are not repeated.
 		if c.prop != "C16" && c.prop != "C20" {
+			// (for the closure the instantiations the repository uses, plus the mixed ones of the quick tier; the
+			// full instantiation matrix of the thorough tier belongs to the property's own plan)
+			c.inClosure = true
 			c.codecTask(nil, nil)
+			c.inClosure = false
 			// likewise the schema contract of Encode / Decode that frames, carriers and list codecs apply to their
 			// parts: exactly the format is appended and nothing before it is touched (ok, safe), a successful Decode
 			// consumes at least the fixed bytes and leaves a suffix (decsafe)
